@@ -171,6 +171,11 @@ class Hostile(Layout):
             # a statement glued to the closing brace in front of it (`}nop`, `}next: rts`)
             self._note(kind, "glued-to-closing-brace")
             return ""
+        if self.same_line and str(nxt.get("prev_text")) == "{" and rng.random() < 0.05 and \
+                (cls in ("mn", "dir") or (cls == "id" and nxt.get("stmt") in ("label", "macrocall"))):
+            # the first statement of a block glued to the opening brace (`{nop`, `{emit()`, `{x: nop`)
+            self._note(kind, "glued-to-opening-brace")
+            return ""
         if self.same_line and rng.random() < self.same_line and self._joinable(nxt):
             # several statements on one line / one-line blocks: only blanks (and a same-line block comment) in between
             out = self._blanks(1)
